@@ -15,6 +15,11 @@ struct PtA { int32_t x; uint8_t tag; double w;                       // framewor
     template <class R> void reflect(R &r) { r & x; r & tag; r & w; } };
 struct NestA { std::string name; std::vector<int16_t> vals; PtA p;
     template <class R> void reflect(R &r) { r & name; r & vals; r & p; } };
+// a type with user-declared copy operations and destructor (std::move of it copies) that owns containers
+typedef std::map<uint8_t, uint8_t> M88;
+struct OwnA { std::vector<int16_t> items; M88 idx; uint8_t id = 0;
+    OwnA() {} OwnA(const OwnA &o) : items(o.items), idx(o.idx), id(o.id) {} OwnA &operator=(const OwnA &o) { items = o.items; idx = o.idx; id = o.id; return *this; } ~OwnA() {}
+    template <class R> void reflect(R &r) { r & items; r & idx; r & id; } };
 struct PtB { int32_t x = 0; uint8_t tag = 0; double w = 0;             // framework B: serialize_reflect
     template <class Ar> void serialize_reflect(Ar &a) { a & x; a & tag; a & w; }
     template <class Ar> void serialize_reflect(Ar &a) const { a & x; a & tag; a & w; } };
@@ -71,6 +76,7 @@ template <class K, class V> struct TI<std::map<K, V>> {
     static S gen() { S s; s.f1 = TI<T1>::gen(); s.f2 = TI<T2>::gen(); s.f3 = TI<T3>::gen(); return s; } };
 STRUCT3(PtA, int32_t, x, uint8_t, tag, double, w)
 STRUCT3(NestA, std::string, name, std::vector<int16_t>, vals, PtA, p)
+STRUCT3(OwnA, std::vector<int16_t>, items, M88, idx, uint8_t, id)
 STRUCT3(PtB, int32_t, x, uint8_t, tag, double, w)
 STRUCT3(NestB, std::vector<int16_t>, vals, PtB, p, uint16_t, n)
 
